@@ -136,6 +136,14 @@ def run(repo, rep, tier):
     L.borrow(repo, rep, "R03.5", "C17", c17._meta_group_roles,
              ("meta-group-roles",))
     L.option_defaults_rule(repo, rep, "R03.5", ("implicit_i18n_translate", "trim_attribute_space"))
+    # with CHAMELEON_DEBUG every fragment of the output passes the checking
+    # stream: it stores what it has checked
+    ds_ = repo.cls("chameleon.utils.DebuggingOutputStream").methods["append"]
+    sup_ = [c for c in ast.walk(ds_.node) if isinstance(c, ast.Call)
+            and src(c.func) in ("super().append", "list.append")]
+    rep.check(bool(sup_), "R03.4", ds_.qualname, "the debugging output "
+              "stream stores every fragment", construct="debug-stream-appends",
+              where=L.where(ds_))
     L.state_rule(repo, rep)
 
 
